@@ -92,6 +92,10 @@ def _run(pm: ProgramModel, ctx: Ctx, mb: ModelBuilder, cd: Codec) -> None:
         "int-range": (AObj("Domain", range_list=[AObj("Range", min_value=0, max_value=10)], element_list=[]), "5", "0"),
         "two-ranges": (AObj("Domain", range_list=[AObj("Range", min_value=0, max_value=3),
                                                   AObj("Range", min_value=7, max_value=9)], element_list=[]), "2", "0"),
+        # bounds whose texts order differently from their values
+        "int-range-5-to-10": (AObj("Domain", range_list=[AObj("Range", min_value=5, max_value=10)], element_list=[]), "7", "5"),
+        "int-ranges-wide": (AObj("Domain", range_list=[AObj("Range", min_value=20, max_value=100),
+                                                       AObj("Range", min_value=250, max_value=1000)], element_list=[]), "30", "20"),
         "enumerated": (AObj("Domain", range_list=[], element_list=["low", "mid", "high"]), "mid", "low"),
         "enumerated-quoted": (AObj("Domain", range_list=[], element_list=['"eco,sport"', '"a b"', "x1"]), '"a b"', "x1"),
         "enumerated-numbers": (AObj("Domain", range_list=[], element_list=["1", "2", "30"]), "2", "1"),
@@ -158,4 +162,6 @@ def _run(pm: ProgramModel, ctx: Ctx, mb: ModelBuilder, cd: Codec) -> None:
     from ..codec import stress_trees
     cd.report("VOC", "stress-shapes", cd.roundtrip(ctc_model(mb, [t for nm, t in stress_trees(mb) if nm != "triple_negation"])),
               "constraint shapes that stress normal forms", ("constraint", "constraint-count"))
+    # the AFM WORD token: a capital letter followed by letters and digits
+    cd.large(mb, OPS, rename=lambda s_: (s_[0].upper() + s_[1:]).replace("_", ""))
     cd.finish_unowned()
